@@ -105,6 +105,8 @@ def run(ch: Choices, focus: str = "C01", params: Optional[dict] = None) -> dict:
     out = {"violations": [], "probes": Counter(), "faults": Counter(), "steps": 0, "nontrivial": False}
     opts = focus_opts(focus, ch, known, params)
     model = gen.gen_model(ch, opts)
+    if focus in ("C01", "C02", "C03", "C08", "C16", "C17"):
+        model = gen.magnify(ch, model, out["probes"])
     out["model"] = gen.render_model(model)
     out["model_dict"] = {k: model[k] for k in ("shr", "idx", "off", "props")}
     space = R.space_size(model["shr"])
@@ -212,7 +214,7 @@ def run_c15(ch: Choices, params: dict, known: dict) -> dict:
     out = {"violations": [], "probes": Counter(), "faults": Counter(), "steps": 0, "nontrivial": False}
     V = out["violations"]
     opts = focus_opts("C15", ch, known, params)
-    model = gen.gen_model(ch, opts)
+    model = gen.magnify(ch, gen.gen_model(ch, opts), out["probes"])
     out["model"] = gen.render_model(model)
     out["model_dict"] = {k: model[k] for k in ("shr", "idx", "off", "props")}
     ref = sorted(R.solutions(model))
@@ -431,8 +433,11 @@ def run_one(ch, focus, model, cfg, mode, policy, ref, out, problem=None) -> str:
                 f"{extra[:3]} duplicated {dup[:3]}",
             )
     if crashed is None and mode[0] == "partial":
-        if len(set(sols)) != len(sols):
-            viol("C02", "duplicate-in-partial", ctx + f"first {len(sols)} solutions contain a duplicate: {sols}")
+        # an assignment of the variables is delivered once per assignment of the shared domains that gives it (a shared
+        # domain that no variable refers to multiplies it): more copies than the reference has is a duplicate
+        over = [s for s in set(sols) if sols.count(s) > ref.count(s) and s in ref]
+        if over:
+            viol("C02", "duplicate-in-partial", ctx + f"first {len(sols)} solutions contain {over[0]} {sols.count(over[0])} times, the reference has it {ref.count(over[0])} time(s): {sols}")
         if len(sols) < min(mode[1], len(ref)):
             viol("C02", "partial-too-few", ctx + f"asked for {mode[1]} solutions, got {len(sols)}, reference has {len(ref)}")
         if any(s not in ref for s in sols):
